@@ -317,6 +317,21 @@ package ice
 //@   site call retainShared#1 assume reference-counter-not-exhausted: muxedConn.refs < 2147483647
 //@   site call retainShared#1 assert retains-a-reference-of-the-connection-found: *arg0 == muxedConn.refs && foundOpen
 //@   site call retainShared#1 ghost retained := result
+//@   ghostvar releasedTemp bool = false
+//@   site call Add#1 assert C12 C13 gives-back-only-the-temporary-reference-it-took: retained && arg1 == 0 - 1
+//@   site call Add#1 ghost releasedTemp := true
+//@   ensures C12 C13 the-temporary-reference-is-given-back-once-the-new-handle-holds-its-own: retained == releasedTemp
+//@   ghostvar muxClosed bool = false
+//@   ghostvar asked bool = false
+//@   site call IsClosed#1 ghost muxClosed := result
+//@   site call IsClosed#1 ghost asked := true
+//@   ensures C12 C13 a-closed-mux-hands-out-nothing: asked && muxClosed ==> result0 == nil && result1 != nil
+//@   ensures C12 C13 an-open-mux-that-was-asked-on-its-own-address-hands-out-a-handle: asked && !muxClosed ==> result1 == nil && result0 != nil
+//@   ghostvar v4 bool = false
+//@   ghostvar famKnown bool = false
+//@   site call To4#1 ghost v4 := result != nil
+//@   site call To4#1 ghost famKnown := true
+//@   site call getConn#1 assert C12 looked-up-under-the-family-of-the-requested-address: arg1 == ufrag && (famKnown ==> arg2 == !v4) && (!famKnown ==> arg2 == false)
 //@   site call createMuxedConn#1 ghost created := true
 //@   site call newSharedAddrPortConn#1 assume reference-counter-not-exhausted: muxedConn.refs < 2147483647
 //@   site call newSharedPacketConn#1 assume reference-counter-not-exhausted: muxedConn.refs < 2147483647
